@@ -38,6 +38,12 @@ impl<'c> Acc<'c> {
         s.hash(&mut self.h);
         self.n += 1;
     }
+    /// something that is wrong whatever the bytes are (e.g. an iterator that does not stop)
+    pub fn flag(&mut self, name: &str) {
+        if !self.mism.iter().any(|m| m == name) {
+            self.mism.push(name.to_string());
+        }
+    }
     /// two doors to the same decoder (e.g. a deprecated alias) must give the same answer
     pub fn same<T: PartialEq + Debug>(&mut self, name: &str, x: T, y: T) {
         if x != y && !self.mism.iter().any(|m| m == name) {
@@ -145,7 +151,7 @@ fn sw_opts(a: &mut Acc, it: TcpOptionsIterator) {
         }
         budget -= 1;
         if budget == 0 {
-            a.d("UNBOUNDED");
+            a.flag("c02.unbounded_iteration");
             break;
         }
     }
@@ -210,7 +216,7 @@ fn sw_net(a: &mut Acc, b: &[u8]) {
                 for (i, e) in x.clone().into_iter().enumerate() {
                     a.d(e);
                     if i > 300 {
-                        a.d("UNBOUNDED");
+                        a.flag("c02.unbounded_iteration");
                         break;
                     }
                 }
@@ -222,13 +228,22 @@ fn sw_net(a: &mut Acc, b: &[u8]) {
         for (i, e) in x.clone().into_iter().enumerate() {
             a.d(e);
             if i > 300 {
-                a.d("UNBOUNDED");
+                a.flag("c02.unbounded_iteration");
                 break;
             }
         }
         a.d(Ipv6Extensions::from_slice(IpNumber(nh), b).map(|(e, n, r)| (e, n, r.len())));
         let l = Ipv6Extensions::from_slice_lax(IpNumber(nh), b);
         a.d((l.0, l.1, l.2.len(), l.3));
+    }
+    // the skip helpers of the IPv6 header: slice and reader versions, for every skippable number (and one that is not)
+    for nh in [0u8, 43, 44, 51, 60, 135, 139, 140, 17] {
+        match Ipv6Header::skip_header_extension_in_slice(b, IpNumber(nh)) { Ok((n, rest)) => { a.d(n); a.s(rest); } Err(e) => a.e(e) }
+        match Ipv6Header::skip_all_header_extensions_in_slice(b, IpNumber(nh)) { Ok((n, rest)) => { a.d(n); a.s(rest); } Err(e) => a.e(e) }
+        let mut c = std::io::Cursor::new(b);
+        a.d(Ipv6Header::skip_header_extension(&mut c, IpNumber(nh)).map_err(|e| e.kind()));
+        let mut c = std::io::Cursor::new(b);
+        a.d(Ipv6Header::skip_all_header_extensions(&mut c, IpNumber(nh)).map_err(|e| e.kind()));
     }
     a.d(Ipv4ExtensionsSlice::from_slice(IpNumber(51), b).map(|(e, n, r)| (e.to_header(), n, r.len())));
     let l = Ipv4ExtensionsSlice::from_slice_lax(IpNumber(51), b);
@@ -322,7 +337,7 @@ fn sw_transport(a: &mut Acc, b: &[u8]) {
                 }
                 budget -= 1;
                 if budget == 0 {
-                    a.d("UNBOUNDED");
+                    a.flag("c02.unbounded_iteration");
                     break;
                 }
             }
